@@ -8,7 +8,8 @@ cd "$wt" || exit 2
 export CARGO_NET_OFFLINE=true
 log=/tmp/seedconfirm-$id.log; : > $log
 echo "== patch applies to clean HEAD?" | tee -a $log
-git stash -q 2>/dev/null
+# (no `git stash`: the stash is shared between worktrees of one repository)
+git checkout -q -- . 2>/dev/null
 git apply --check SEED/patch.diff && echo "applies: yes" | tee -a $log || { echo "applies: NO" | tee -a $log; }
 echo "== demo WITHOUT the change (must pass)" | tee -a $log
 cp SEED/demo.rs borsh/tests/seed_demo.rs
@@ -23,7 +24,6 @@ echo "== existing suite WITH the change (must pass)" | tee -a $log
 cargo test --workspace --no-fail-fast --offline > /tmp/seedconfirm-$id.suite 2>&1; rc_suite=$?
 grep -E "^test result" /tmp/seedconfirm-$id.suite | awk '{p+=$4; f+=$6} END{print p" passed "f" failed"}' | tee -a $log
 echo "rc_suite=$rc_suite" | tee -a $log
-git stash drop -q 2>/dev/null
 if [ $rc_without -eq 0 ] && [ $rc_with -ne 0 ] && [ $rc_suite -eq 0 ]; then
   mkdir -p /verif/seeded/$id
   cp SEED/patch.diff SEED/demo.rs /verif/seeded/$id/
